@@ -65,6 +65,9 @@ def bind_and_run(ex, fn, st, bindings):
         if p in bindings:
             st.env[p] = bindings[p]
         elif p in defaults:
+            if isinstance(defaults[p], (ast.Dict, ast.List, ast.Set, ast.Call, ast.ListComp, ast.DictComp, ast.SetComp)):
+                # evaluated once at definition time and shared by all calls: state that survives between calls
+                raise Unsupported(f"parameter {p} has a mutable default value: outside the verified subset")
             st.env[p] = ex.ev(defaults[p], st)
         else:
             raise Unsupported(f"parameter {p} unbound")
